@@ -268,12 +268,16 @@ def variants (f : Fn) (c : Rec) : List Rec :=
     instantiation. -/
 def stage1Fn (sc : Scope) (f : Fn) : List Rec :=
   if f.tinst.isEmpty then
-    (List.range f.ndefaults).map (defaultClone sc f) ++
-     (if f.usesT then
-        -- `template_function2`: the declared node is switched off, one clone is wrapped
-        [{ original sc f with wrap := ⟨false, false, false, false⟩ },
-         { original sc f with gen := .cxxTemplate, wrap := sc.w0 }]
-      else [original sc f])
+    if f.usesT then
+      -- `template_function2`: the declared node is switched off, one clone is wrapped; its
+      -- default-argument variants are made from the instantiated clone
+      if f.ndefaults = 0 then
+        [{ f.base sc with wrap := ⟨false, false, false, false⟩ },
+         { f.base sc with gen := .cxxTemplate, wrap := sc.w0 }]
+      else
+        { f.base sc with wrap := ⟨false, false, false, false⟩ }
+          :: variants f { f.base sc with gen := .cxxTemplate, wrap := sc.w0 }
+    else (List.range f.ndefaults).map (defaultClone sc f) ++ [original sc f]
   else if f.ndefaults = 0 then
     { f.base sc with overloaded := true, wrap := ⟨false, false, false, false⟩ }
       :: templateClones (f.base sc) sc.w0 0 f.tinst
